@@ -24,6 +24,13 @@ EncOf(G) == [has |-> G.has, bl |-> [x \in 1..G.n |-> SeqToSet(G.bl[x])], bs |-> 
 Exact(G) == \A x \in 1..G.n : G.len[x] >= -1
 \* path lengths are defined on trees whose (non-seed) edges all have lengths - or none has (everything 0)
 MetricDomain(g) == (\A x \in Nodes(g) \ {g.seed} : g.len[x] >= 0) \/ (\A x \in Nodes(g) : g.len[x] = -1)
+\* ... and on mixed patterns (None counted as 0, as Tree.length() documents) unless this very call drops a length
+\* in the one place where the library does so (basal collapse onto an edge without length)
+DropsLength(e) ==
+    CASE e.action = "ReseedAt" -> ReseedLossy(e.pre, e.x, e.ub, e.su, e.cb)
+      [] e.action = "ToOutgroupPosition" -> ReseedLossy(e.pre, e.pre.par[e.x], e.ub, e.su, TRUE)
+      [] e.action = "RandomlyReorient" -> NotRooted(e.pre)
+      [] OTHER -> FALSE
 Opts(e) == (IF e.ub THEN "ub1" ELSE "ub0") \o (IF e.su THEN "su1" ELSE "su0") \o (IF e.cb THEN "cb1" ELSE "cb0")
 
 \* would the clean-up after the re-seeding of to_outgroup_position dissolve the outgroup (or its parent)?
@@ -61,7 +68,7 @@ SpecPaths(g) == LET pt == PathTab(g) IN {<<p[1], p[2], pt[p]>> : p \in DOMAIN pt
 JudgeC07(e) ==
     LET pre == e.pre  post == e.post  c == CallOfEv(e)  k == Cls(e) IN
     IF e.action \notin Reorientations \/ WFClause(post) # "ok" \/ ~InDomain(pre) THEN None
-    ELSE LET ref == C07Ref(c, pre)  metric == Exact(pre) /\ Exact(post) /\ MetricDomain(ref) IN
+    ELSE LET ref == C07Ref(c, pre)  metric == Exact(pre) /\ Exact(post) /\ (MetricDomain(ref) \/ ~DropsLength(e)) IN
       (IF ~ClSameLeafSet(ref, post) THEN V("C07.LeafSet", k) ELSE None)
       \o (IF ~ClSameSplits(ref, post) THEN V("C07.UnrootedSplits", k) ELSE None)
       \o (IF metric /\ ~ClSameTotalLength(ref, post) THEN V("C07.TotalLength", k) ELSE None)
